@@ -492,16 +492,15 @@ def norm(node):
 
 
 def walk_no_nested(node, include_lambda=True):
-    """ast.walk that does not descend into nested function/class definitions."""
-    todo = list(ast.iter_child_nodes(node))
-    while todo:
-        n = todo.pop()
+    """Pre-order (source order) walk that does not descend into nested function/class definitions."""
+    for n in ast.iter_child_nodes(node):
         yield n
         if isinstance(n, (ast.FunctionDef, ast.AsyncFunctionDef, ast.ClassDef)):
             continue
         if isinstance(n, ast.Lambda) and not include_lambda:
             continue
-        todo.extend(ast.iter_child_nodes(n))
+        for m in walk_no_nested(n, include_lambda):
+            yield m
 
 
 def body_stmts(func_node):
